@@ -6,7 +6,9 @@ from __future__ import annotations
 
 from harness import xsession
 
-VARS = {"S": "MULTILINE_PROMPT", "B": "VI_MODE", "P": "CDPATH"}
+VARS = {"S": "MULTILINE_PROMPT", "B": "VI_MODE", "P": "CDPATH", "U": "VERIF_UNTYPED", "R": "XONSH_SUBPROC_CMD_RAISE_ERROR", "Q": "VERIFQPATH"}
+MIRROR = "RAISE_SUBPROC_ERROR"
+EQUAL_BUT_DIFFERENT = [1, True, 1.0]  # compare equal, stringify differently
 UNSET = 9
 
 
@@ -18,8 +20,12 @@ def setup(wd):
 def _value(k, v):
     if k == "S":
         return f"s{v}"
-    if k == "B":
+    if k in ("B", "R"):
         return bool(v)
+    if k == "U":
+        return EQUAL_BUT_DIFFERENT[v]
+    if k == "Q":
+        return f"~/q{v}"
     return ["/p0"] + [f"/a{i}" for i in range(1, v + 1)]
 
 
@@ -28,8 +34,19 @@ def _decode(k, s):
         return UNSET
     if k == "S":
         return int(s[1:]) if s.startswith("s") and s[1:].isdigit() else -1
-    if k == "B":
+    if k in ("B", "R"):
         return {"1": 1, "": 0}.get(s, -1)
+    if k == "U":
+        return {"1": 0, "True": 1, "1.0": 2}.get(s, -1)
+    if k == "Q":
+        import os
+
+        home = os.path.expanduser("~")
+        if s.startswith("~/q") and s[3:].isdigit():
+            return 10 + int(s[3:])  # verbatim: stored as a plain string
+        if s.startswith(home + "/q") and s[len(home) + 2 :].isdigit():
+            return int(s[len(home) + 2 :])  # expanded: converted as a path list
+        return -1
     parts = s.split(":")
     if parts[0] != "/p0" or any(p != f"/a{i}" for i, p in enumerate(parts[1:], 1)):
         return -1
@@ -58,7 +75,12 @@ def run(ctx, scn):
     for k, name in VARS.items():
         if name in env._d:
             del env[name]
+    if MIRROR in env._d:
+        del env[MIRROR]
     env["CDPATH"] = _value("P", 0)
+    rule = env["XONSH_ENV_PATTERN_PATH"]
+    while VARS["Q"] in rule.exclude:
+        rule.exclude.remove(VARS["Q"])
     held = None
     steps = []
     for st in scn["steps"]:
@@ -74,16 +96,22 @@ def run(ctx, scn):
             env["CDPATH"].append(f"/a{len(env['CDPATH'])}")
         elif cmd == "mutheld":
             held.append(f"/a{len(held)}")
+        elif cmd == "togglerule":
+            if VARS["Q"] in rule.exclude:
+                rule.exclude.remove(VARS["Q"])
+            else:
+                rule.exclude.append(VARS["Q"])
         elif cmd == "launch":
             if k and v == UNSET:
                 with env.swap({VARS[k]: DELETE_VAR}):
                     child = _launch(XSH)
             elif k:
-                lit = repr(_value(k, v)) if k == "S" else ("True" if v else "False")
+                lit = repr(_value(k, v)) if k == "S" else ("True" if v else "False")  # S, B, R
                 child = _launch(XSH, prefix=f"${VARS[k]}={lit} ")
             else:
                 child = _launch(XSH)
             obs["child"] = {kk: _decode(kk, child.get(name)) for kk, name in VARS.items()}
+            obs["mirror"] = _decode("R", child.get(MIRROR))
             # the nested xonsh: same typed values for the variables the child received
             nested = Env(child)
             back = True
@@ -91,8 +119,10 @@ def run(ctx, scn):
                 if name in child:
                     expect = _value(kk, v) if (kk == k and v != UNSET) else env[name]
                     got = nested[name]
-                    if kk == "P":
+                    if kk in ("P",) or hasattr(got, "paths") or hasattr(expect, "paths"):
                         got, expect = list(got), list(expect)
+                    if kk in ("U", "Q"):
+                        continue  # untyped / rule-typed names: a nested shell re-types them by its own rules
                     if got != expect:
                         back = False
             obs["back"] = back
